@@ -137,6 +137,9 @@ def build(tier):
     tpos.note = 'IEEE evaluation of the percentile position: lpos/rpos are the exact floor/ceiling of P(n-1)/100'
     import ext
     targets += ext.mean_targets(tier)
+    update_fns = lambda cxx: [Fn('histogram_update', TU, 'update', flt='nano::histogram_t', select=targs(cxx + ' *'), **hk),
+                              Fn('update_op', TU, 'update', flt='nano::histogram_t', select=targs(cxx + ' *'), lambda_index=0, optional=True, **hk_nolam)]
+    targets += ext.ctor_targets(tier, update_fns)
     pv, pf = percentile_vcs()
     return {
         'targets': targets, 'vcs': pv, 'functions': pf, 'bounded': [tpos],
